@@ -190,6 +190,10 @@ def run(fx, tier):
     if n_clone < 2:
         raise AnalysisBroken('clone_endpoints / clone_servers not found')
 
+    # the packet that carries the request is the one MQTT 5 defines for these arguments (shared with C17)
+    from c17 import encoder_schema_rules
+    v.rule('R-SCHEMA', 'wire schema of encode_connect vs the MQTT 5 packet table (field order, kinds, sources, flag bits, Remaining Length)')
+    encoder_schema_rules(fx, v, 'C10', only=('encode_connect',))
     # ------------------------------------------------------------------ R-CGRAPH
     by_inst = {}
     for f in entry_points(fx, ('connect_op',)):
